@@ -27,9 +27,12 @@ func BuildEndpointPolicyTree(
 			return nil, err
 		}
 		var endpointPolicy *map[urltree.Method]EndpointPolicy
-		existingEndpointPolicy := endpointPolicyTree.Lookup(endpoint.URL)
-		if existingEndpointPolicy.Value != nil {
-			existingPolicy := *existingEndpointPolicy.Value
+		// merge only into the node declared for exactly this URL pattern: the request-time
+		// Lookup falls back to wildcard / parametric nodes of OTHER patterns, whose method
+		// maps must not be shared with (or overwritten by) this endpoint
+		existingDeclaredPolicy, found := endpointPolicyTree.LookupDeclaredURL(endpoint.URL)
+		if found {
+			existingPolicy := *existingDeclaredPolicy
 			existingPolicy[urltree.Method(endpoint.Method)] = EndpointPolicy{
 				URL:       endpoint.URL,
 				Remedies:  endpoint.Remedies,
